@@ -17,7 +17,7 @@ PROPS = {
         ],
         "gen_facts": ["Base64.lean"],
         "kernels": [("vlq", 20000, 1000000)],
-        "searches": [],
+        "searches": [("c07-map", 400, 30000)],
         "scope": "internal/sourcemap/sourcemap.go: encodeVLQ, DecodeVLQ, DecodeVLQUTF16 modelled",
         "assumptions": ["Go int is 64-bit; model integers are unbounded (|v| < 2^62 in every call site)"],
     },
